@@ -6,6 +6,7 @@
 use crate::gen::*;
 use crate::ig::*;
 use crate::model::Loc;
+use crate::q::{seg_x, SegX};
 use crate::report::*;
 use crate::rng::{Fnv, Rng};
 use geo::algorithm::validation::{InvalidGeometry, InvalidMultiPolygon, InvalidPolygon, RingRole};
@@ -179,8 +180,37 @@ fn norm_open(v: &[IP]) -> Vec<IP> {
     o
 }
 
+/// two segments of the geometry meet in a single point interior to both
+fn has_proper_crossing(a: &IG) -> bool {
+    let segs = a.to_model().segs();
+    for i in 0..segs.len() {
+        for j in i + 1..segs.len() {
+            let (s, t) = (segs[i], segs[j]);
+            if let SegX::Point(p) = seg_x(s.0, s.1, t.0, t.1) {
+                if p != s.0 && p != s.1 && p != t.0 && p != t.1 {
+                    return true;
+                }
+            }
+        }
+    }
+    false
+}
+fn has_rect(a: &IG) -> bool {
+    match a {
+        IG::Rect(..) => true,
+        IG::Collection(v) => v.iter().any(has_rect),
+        _ => false,
+    }
+}
+
 pub fn check_one(sh: &mut Shard, a: &IG, lat: &Lat, class: &str, verbose: bool) {
     sh.cases += 1;
+    // a sheared rectangle is no Rect: those stay on the plain lattice
+    let plain = Lat { shear: 0, ..*lat };
+    let lat = if lat.shear != 0 && has_rect(a) { &plain } else { lat };
+    if lat.shear != 0 {
+        sh.class("lattice:sheared");
+    }
     let g = a.to_geo(lat);
     let exp = match guard(|| expected_valid(a)) {
         Ok(Some(e)) => e,
@@ -203,7 +233,10 @@ pub fn check_one(sh: &mut Shard, a: &IG, lat: &Lat, class: &str, verbose: bool) 
     };
     match &got {
         Ok(v) if *v == exp => {}
-        Ok(v) => sh.violation(&format!("is_valid|{kind}:{}:{class}|-", defect.split('(').next().unwrap_or("")), detail("is_valid", a, lat, exp.to_string(), v.to_string(), json!({"oracle_defect": defect, "mutation_class": class}))),
+        Ok(v) => sh.violation(&format!("is_valid|{kind}:{}:{class}|{}", defect.split('(').next().unwrap_or(""),
+            // known finding (see C01): on the sheared lattice a PROPER crossing of two nearly parallel long edges is located by
+            // a computed point and the relate-based ring checks can miss it; only "invalid accepted", only with such a crossing
+            if lat.shear != 0 && !exp && *v && guard(|| has_proper_crossing(a)).unwrap_or(false) { "relate_ill_conditioned_crossing" } else { "-" }), detail("is_valid", a, lat, exp.to_string(), v.to_string(), json!({"oracle_defect": defect, "mutation_class": class}))),
         Err(p) => sh.violation(&format!("is_valid.panic|{kind}|-"), detail("is_valid.panic", a, lat, exp.to_string(), p.clone(), json!({"at": last_panic_loc()}))),
     }
     // validation_errors().is_empty() == is_valid == check_validation().is_ok()
@@ -521,7 +554,7 @@ pub fn run(ctx: &Ctx, sh: &mut Shard) {
         if a.n_segments() > 80 {
             continue;
         }
-        let lat = Lat::random(&mut r);
+        let lat = if k % 5 == 0 { Lat::random_sheared(&mut r) } else { Lat::random(&mut r) };
         check_one(sh, &a, &lat, class, false);
         if r.chance(1, 10) {
             check_nonfinite(sh, &mut r, &a, &lat);
